@@ -11,8 +11,10 @@ requests      {"op":"first","specs":[spec,…]}   each spec in its own child ("c
               {"op":"seq","calls":[spec,…]}      all calls in ONE child, in order (a history) + state probe
               {"op":"probe"}                      state probe of the pristine state
               {"op":"quit"}
-spec          {"ep": name, "a": [encoded argument,…]}
+spec          {"ep": name, "a": [encoded argument,…]}     (+ "m": 1 - afterwards the caller overwrites the buffers it got back)
+              encoded arguments: see dec(); ["h", slot, enc] is a buffer the caller keeps and re-uses within a history
 result/call   [canonical result, [indices of arguments whose buffers changed], note]
+              a "seq" request with "hold": true also re-examines every returned object after the last call ("held_changed")
 
 Environment C19_AMBIENT=1|2: time / datetime / random / secrets / uuid / os.urandom are replaced by two different
 deterministic settings *before* the library is imported.
@@ -20,6 +22,7 @@ deterministic settings *before* the library is imported.
 import hashlib
 import json
 import os
+import re
 import signal
 import sys
 
@@ -100,7 +103,66 @@ def dec(e):
         return [dec(x) for x in e[1]]
     if t == "d":
         return {_hashable(dec(k)): dec(v) for k, v in e[1]}
+    # ---- variants that compare equal to one of the above but are another value / type for the callee
+    if t in ("fb", "fbl"):
+        from bitarray import frozenbitarray
+
+        return frozenbitarray(e[1], endian="little" if t == "fbl" else "big")
+    if t == "mv":
+        return memoryview(bytes.fromhex(e[1]))
+    if t == "mva":
+        return memoryview(bytearray.fromhex(e[1]))
+    if t == "npd":
+        import numpy
+
+        return numpy.array(e[2], dtype=e[1])
+    if t == "npi":
+        import numpy
+
+        return numpy.int64(e[1])
+    if t == "h":
+        return held(e[1], e[2])
     raise ValueError(f"bad encoded argument {e!r}")
+
+
+# buffers the CALLER keeps and re-uses between calls of one history: ["h", slot, enc] hands the callee the very same
+# object every time, its content overwritten in place (by the caller, before the call) with what `enc` says
+_HELD = {}
+
+
+def held(slot, enc):
+    new = dec(enc)
+    old = _HELD.get(slot)
+    tn = type(new).__name__
+    if old is None or type(old) is not type(new):
+        _HELD[slot] = new
+        return new
+    try:
+        if tn == "bitarray":
+            if _endian(old) != _endian(new):
+                raise TypeError
+            old.clear()
+            old.extend(new)
+        elif tn in ("bytearray", "list"):
+            old[:] = new
+        elif tn == "dict":
+            old.clear()
+            old.update(new)
+        elif tn == "ndarray":
+            if old.shape != new.shape or old.dtype != new.dtype:
+                raise TypeError
+            old[...] = new
+        else:
+            raise TypeError
+    except TypeError:
+        _HELD[slot] = new
+        return new
+    return old
+
+
+def _endian(b):
+    e = b.endian
+    return e() if callable(e) else e
 
 
 def _hashable(x):
@@ -111,6 +173,7 @@ def _hashable(x):
 # canonical form of any result (no reprs, no ids, no dict order, no timestamps)
 SKIP_FIELDS = {"log", "_log", "logger", "_logger"}
 _default_gps = [None]
+_MV_ADDR = re.compile(r"\bmemory at 0x[0-9a-fA-F]+")
 
 
 def canon(o, depth=0, path=None):
@@ -128,11 +191,17 @@ def canon(o, depth=0, path=None):
     if isinstance(o, float):
         return "f" + repr(o)
     if isinstance(o, str):
+        if "memory at 0x" in o:
+            # text the library made of a memoryview ARGUMENT (a variant of a bytes argument, see c19.arg_variants): the
+            # address is the identity of the caller's own object, not library state
+            o = _MV_ADDR.sub("memory at 0x?", o)
         return json.dumps(o)
     if isinstance(o, bytes):
         return "x'" + o.hex() + "'"
     if isinstance(o, bytearray):
         return "xa'" + bytes(o).hex() + "'"
+    if isinstance(o, memoryview):
+        return ("mv'" if o.readonly else "mva'") + bytes(o).hex() + "'"
     tn = type(o).__name__
     mod = type(o).__module__ or ""
     if tn == "bitarray" or tn == "frozenbitarray":
@@ -200,7 +269,7 @@ def squash(s: str, limit=400) -> str:
 
 def is_buffer(x):
     tn = type(x).__name__
-    return isinstance(x, (bytearray, list, dict, set)) or tn in ("bitarray", "ndarray", "array")
+    return isinstance(x, (bytearray, list, dict, set)) or tn in ("bitarray", "ndarray", "array") or (isinstance(x, memoryview) and not x.readonly)
 
 
 # ------------------------------------------------------------------------------------------------
@@ -561,8 +630,31 @@ INPLACE_OK = {"h743.check_and_correct", "h1393.check_and_correct", "h15113.check
               "h17123.check_and_correct", "bptc.repair_deinterleaved"}
 
 
-def execute(spec, full=False):
-    """one call: [canonical result, [changed argument indices], note]"""
+def scribble(raw):
+    """the CALLER overwrites the bit / byte buffers it was handed back (top level, or directly inside a returned list / tuple)"""
+
+    def one(x):
+        tn = type(x).__name__
+        try:
+            if tn == "bitarray":
+                x.invert()
+            elif tn == "bytearray":
+                for i in range(len(x)):
+                    x[i] ^= 0xFF
+            elif tn == "ndarray" and x.flags.writeable:
+                x[...] = (x == 0)
+        except Exception:  # noqa
+            pass
+
+    one(raw)
+    if isinstance(raw, (list, tuple)):
+        for x in raw:
+            one(x)
+
+
+def execute(spec, full=False, keep=None):
+    """one call: [canonical result, [changed argument indices], note].  spec["m"]: the caller scribbles over the returned
+    buffers afterwards.  keep: list collecting (returned object, digest of its canonical form) for the held-result check"""
     E = impl()
     name = spec["ep"]
     fn = E.get(name)
@@ -594,6 +686,12 @@ def execute(spec, full=False):
                 note = "in-place repair returned the repaired argument buffer"
                 continue
             changed.append([i, squash(b, 300), squash(after, 300)])
+    if keep is not None:
+        # (a buffer the caller re-uses and gets back from an in-place repair changes by the caller's own hand)
+        holdable = raw is not None and not spec.get("m") and not any(a and a[0] == "h" for a in spec["a"])
+        keep.append((raw, hashlib.sha256(res.encode()).hexdigest(), res) if holdable else None)
+    if raw is not None and spec.get("m"):
+        scribble(raw)
     return [res if full else squash(res), changed, note]
 
 
@@ -727,9 +825,25 @@ def serve():
             resp = {"r": [x if isinstance(x, list) else ["ERR worker " + x.get("child_error", "?"), [], ""] for x in res]}
         elif op == "seq":
 
-            def run_seq(calls=req["calls"], want_probe=req.get("probe", True), full=req.get("full", False)):
-                rs = [execute(s, full and i == len(calls) - 1) for i, s in enumerate(calls)]
-                return {"r": rs, "probe": probe() if want_probe else None}
+            def run_seq(calls=req["calls"], want_probe=req.get("probe", True), full=req.get("full", False), hold=req.get("hold", False)):
+                keep = [] if hold else None
+                rs = [execute(s, full and i == len(calls) - 1, keep) for i, s in enumerate(calls)]
+                out = {"r": rs}
+                if hold:
+                    # every object the library returned is still held by the caller: none may have changed since
+                    ch = []
+                    for i, k in enumerate(keep):
+                        if k is None:
+                            continue
+                        try:
+                            now = canon(k[0])
+                        except BaseException as e:  # noqa
+                            now = "ERR canon " + type(e).__name__
+                        if hashlib.sha256(now.encode()).hexdigest() != k[1]:
+                            ch.append([i, squash(k[2], 300), squash(now, 300)])
+                    out["held_changed"] = ch
+                out["probe"] = probe() if want_probe else None
+                return out
 
             resp = child(run_seq, 600)
         elif op == "probe":
